@@ -19,6 +19,7 @@ import (
 	"context"
 	"fmt"
 	"io"
+	"runtime/debug"
 	"sort"
 	"sync"
 	"testing"
@@ -28,6 +29,14 @@ import (
 	"github.com/gauss-project/aurorafs/pkg/storage"
 	"github.com/gauss-project/aurorafs/pkg/zzverif/mc"
 )
+
+// Many short-lived small objects on a tiny live heap: with the default GOGC the collector runs
+// almost continuously. Memory is not a concern here.
+func init() {
+	if boson.Branches == 4 { // scaled geometry only: at the real geometry fresh heap (page faults) costs more than collecting
+		debug.SetGCPercent(2000)
+	}
+}
 
 // ---------------------------------------------------------------- fixture
 
@@ -164,7 +173,7 @@ func c07Specs(seek bool) []c07Spec {
 			return []c07Spec{{1, false}, {c + 1, false}, {2*c + 10, false}}
 		}
 		return []c07Spec{{0, false}, {1, false}, {c - 1, false}, {c, false}, {c + 1, false}, {2*c + 10, false},
-			{33, true}, {c + 1, true}}
+			{c + 1, true}}
 	}
 	var ls []int
 	if seek {
@@ -295,10 +304,10 @@ func TestVerifC07ReadAt(t *testing.T) {
 	specs := c07Specs(false)
 	mc.Run(t, mc.Config{ID: "C07", Name: "C07-readat-" + c07Geometry(), MaxDev: -1, Params: map[string]interface{}{
 		"geometry": c07Geometry(), "chunk_size": boson.ChunkSize, "branches": boson.Branches,
-		"files": c07SpecSumm(specs),
-		"offsets":      "scaled: {0,1,C-1,C,C+1,2C,2C+1,4C-1,4C,4C+1,8C,16C-1,16C,16C+1,32C,64C-1,64C,l/2,l-C,l-2,l-1,l,l+1} up to l+1, and 2l; real: {0,1,C-1,C,l/2,l-1,l,l+1,2l}, real encrypted: {0,C-1,l-1,l}",
-		"buffer_len":   "{0,1,C-1,C,C+1,2C+1,4C+1,l} (real: {0,1,C,l}, real encrypted: {1,l})",
-		"buffer_cap":   "{len, len+1, len+C, 2len+7} (real: {len, len+33})"}},
+		"files":      c07SpecSumm(specs),
+		"offsets":    "scaled: {0,1,C-1,C,C+1,2C,2C+1,4C-1,4C,4C+1,8C,16C-1,16C,16C+1,32C,64C-1,64C,l/2,l-C,l-2,l-1,l,l+1} up to l+1, and 2l; real: {0,1,C-1,C,l/2,l-1,l,l+1,2l}, real encrypted: {0,C-1,l-1,l}",
+		"buffer_len": "{0,1,C-1,C,C+1,2C+1,4C+1,l} (real: {0,1,C,l}, real encrypted: {1,l})",
+		"buffer_cap": "{len, len+1, len+C, 2len+7} (real: {len, len+33})"}},
 		func(x *mc.X) {
 			fi := x.Choose(len(specs))
 			f := c07Fixture(x, specs[fi].l, specs[fi].enc)
